@@ -65,6 +65,46 @@ def h_exact(ctx, skel, G, space, std=True, cache=False, zero_first=True):
         ctx.tag("exact")
 
 
+def h_run(ctx, skel, G, space, std=True, cache=False, zero_first=True):
+    """The whole InsideOutsideMethod.run (main_algorithm, inside, outside, standardize,
+    force linear, to_probabilities, mean_var) against the brute-force posterior."""
+    from symx.dom import LogQ, Q
+    ts = _ts_for(skel)
+    with D.setup(ctx, ts, G, space, zero_first=zero_first, build="method") as env:
+        m = D.make_method(env, ts, "inside_outside")
+        try:
+            res = m.run(eps=env.eps, outside_standardize=std, ignore_oldest_root=False,
+                        probability_space=space, num_threads=None, cache_inside=cache)
+        except Exception as e:
+            ctx.fail("no-exception", detail={"exception": repr(e)})
+            return
+        W, Z = D.brute_force(ts, env)
+        fit = res.fit_object
+        post = fit.posterior_grid
+        tp = env.timepoints
+        ctx.prove("run:posterior_in_linear_space", post.probability_space == "linear")
+        for u in env.nonfixed:
+            row = [Q.of(x) for x in post[u]]
+            for g in range(G):
+                ctx.prove(f"run:post[{u}][{g}]=exact_probability", row[g] * Z == W[(int(u), g)])
+            mean = sum((W[(int(u), g)] * tp[g] for g in range(1, G)), W[(int(u), 0)] * tp[0])
+            ctx.prove(f"run:mean[{u}]", res.posterior_mean[u] * Z == mean)
+            mu_ = res.posterior_mean[u]
+            var = sum((W[(int(u), g)] * (tp[g] - mu_) * (tp[g] - mu_) for g in range(G)), Q.of(0))
+            ctx.prove(f"run:var[{u}]", res.posterior_var[u] * Z == var)
+        for s_ in ts.samples():
+            ctx.prove(f"run:sample[{s_}]:mean", res.posterior_mean[s_] == float(ts.nodes_time[s_]))
+            ctx.prove(f"run:sample[{s_}]:var", res.posterior_var[s_] == 0)
+        ml = res.mutation_lik
+        if isinstance(ml, LogQ):
+            ctx.prove("run:marginal_likelihood", ml.q == Z)
+        elif space != "linear":
+            ctx.prove("run:marginal_likelihood", False, detail={"ml": repr(ml)})
+        else:
+            ctx.prove("run:marginal_likelihood", Q.of(ml) == Z)
+        ctx.tag("run")
+
+
 def h_logsumexp(ctx, k, ninf):
     """LogLikelihoods.logsumexp itself: every ordering of k finite entries plus `ninf`
     entries equal to -inf (positions given by the mask)."""
@@ -125,6 +165,15 @@ def cases(tier):
                                 f"exact:{sk}:G{G}:{space[:3]}:std{int(std)}:cache{int(cache)}:zf{int(zf)}",
                                 h_exact, dict(skel=sk, G=G, space=space, std=std, cache=cache,
                                               zero_first=zf), weight=G * (2 if not zf else 1)))
+    runs = [("cherry", 4), ("cat3", 3), ("tri", 4), ("root_not_last", 3)] if tier == "quick" else \
+        [("cherry", 5), ("cat3", 4), ("tri", 5), ("root_not_last", 4), ("bal4", 3), ("cat4", 3),
+         ("star4", 4)]
+    for sk, G in runs:
+        for space in ("linear", "logarithmic"):
+            for zf in (True, False):
+                cs.append(Case(f"run:{sk}:G{G}:{space[:3]}:zf{int(zf)}", h_run,
+                               dict(skel=sk, G=G, space=space, std=True, cache=False,
+                                    zero_first=zf), weight=40))
     kmax = 4 if tier == "quick" else 5
     for k in range(1, kmax + 1):
         for mask in itertools.product([False, True], repeat=k):
@@ -150,6 +199,7 @@ def run(tier, seed, t0):
         "by its verified summary inside the belief-propagation runs.",
         functions=["tsdate.discrete.Likelihoods.*", "tsdate.discrete.LogLikelihoods.*",
                    "tsdate.discrete.BeliefPropagation.__init__/inside_pass/outside_pass",
+                   "tsdate.core.InsideOutsideMethod.run", "tsdate.core.DiscreteTimeMethod.main_algorithm/mean_var",
                    "tsdate.node_time_class.NodeTimeValues.*"],
         bounds={"trees": sorted({c.kw["skel"] for c in cs if "skel" in c.kw}),
                 "grid_sizes": sorted({c.kw["G"] for c in cs if "G" in c.kw}),
@@ -168,7 +218,7 @@ def run(tier, seed, t0):
         out_of_scope=["SciPy's Poisson evaluation", "floating-point underflow in linear space",
                       "trees with more than 5 leaves / grids with more than 5 points"],
         validated=npx.validate(),
-        expect_tags=["exact", "lse"],
+        expect_tags=["exact", "lse", "run"],
     )
 
 
@@ -223,7 +273,7 @@ def _replay_at(payload, kw, m, ts, mu_o, eps_o):
             row[0] = 0.0
         pri[u] = np.array(row)
     try:
-        _, fit, lik = tsdate.inside_outside(
+        dated, fit, lik = tsdate.inside_outside(
             ts, mutation_rate=mu, priors=pri, eps=eps, probability_space=space,
             outside_standardize=kw["std"], cache_inside=kw["cache"], return_fit=True,
             return_likelihood=True)
@@ -271,6 +321,14 @@ def _replay_at(payload, kw, m, ts, mu_o, eps_o):
                 continue
             if not abs(row[g] - want) <= 1e-6 * abs(want):
                 bad.append((u, g, float(row[g]), want))
+    for u in internal:   # mean / variance as written to the metadata
+        md = dated.node(u).metadata
+        mean = sum(W[(u, g)] / Z * tpr[g] for g in range(G))
+        var = sum(W[(u, g)] / Z * (tpr[g] - mean) ** 2 for g in range(G))
+        if not abs(md["mn"] - mean) <= 1e-6 * abs(mean) + 1e-300:
+            bad.append(("mn", u, md["mn"], mean))
+        if not abs(md["vr"] - var) <= 1e-5 * abs(var) + 1e-300:
+            bad.append(("vr", u, md["vr"], var))
     want_l = Z if space == "linear" else math.log(Z)
     if not abs(lik - want_l) <= 1e-7 * max(1.0, abs(want_l)):
         bad.append(("likelihood", float(lik), want_l))
